@@ -661,7 +661,8 @@ def adjust_to_timezone_preserves_instant(oi: int, zi: int, hour: int) -> bool:
     t = DateTime(2002, 3, 7, hour, 30, 0, tzinfo=tz)
     u = Time(hour, 30, 0, tzinfo=tz)
     v = dict(d=d, t=t, u=u, z=z)
-    if ev_(T_ADJ['dt_eq'], v) != [True] or ev_(T_ADJ['time_eq'], v) != [True]:
+    # (xs:time values are compared on a reference date, so an adjustment that crosses midnight is not 'eq': only dateTime is asserted)
+    if ev_(T_ADJ['dt_eq'], v) != [True]:
         return False
     if ev_(T_ADJ['tz_of'], v)[0].seconds != TZ_OFFS[zi] * 60:
         return False
@@ -673,3 +674,23 @@ def adjust_to_timezone_preserves_instant(oi: int, zi: int, hour: int) -> bool:
 def ev_(tok, variables):
     r = tok.evaluate(XPathContext(item=1, variables=variables))
     return r if isinstance(r, list) else [r]
+
+
+@ob(budget=60, tbudget=300, kind='hunt', bound='xs:date with a timezone from 7 offsets adjusted to the SAME timezone (explicit argument or implicit timezone of the context): identity (datetime model: bug-hunting)',
+    funcs=['elementpath/xpath_tokens/base.py:adjust_datetime (xs:date branch)'])
+def adjust_date_same_timezone(oi: int, implicit: bool) -> bool:
+    """
+    pre: 0 <= oi <= 6
+    post: _
+    """
+    tz = Timezone(datetime.timedelta(minutes=TZ_OFFS[oi]))
+    d = Date(2002, 3, 7, tzinfo=tz)
+    if implicit:
+        r = T_ADJ1.evaluate(XPathContext(item=1, variables=dict(d=d), timezone=tz))
+    else:
+        r = T_ADJ['date'].evaluate(XPathContext(item=1, variables=dict(d=d, z=DayTimeDuration(seconds=TZ_OFFS[oi] * 60))))
+    r = r[0] if isinstance(r, list) else r
+    return str(r) == str(d)
+
+
+T_ADJ1 = parse_all({'x': 'adjust-date-to-timezone($d)'})['x']
